@@ -106,6 +106,7 @@ CHECKS = {
 }
 
 NOT_YET = {}
+MULTI = {'C01', 'C02', 'C03', 'C04', 'C05', 'C07', 'C08', 'C11', 'C12', 'C13', 'C17', 'C20'}
 
 def main():
     props = [json.loads(l) for l in open('properties.jsonl')]
@@ -125,7 +126,7 @@ def main():
             'replay_cmd_template': './check %s --replay {path}' % pid,
             'engine': 'tlc+replay',
             'level_claimed': {'category': c['category'], 'text': c['text'], 'design_ref': c['design_ref']},
-            'level_note': c['note'],
+            'level_note': c['note'] + (' Thorough tier: the quick generation under four consecutive seeds, one after the other (the larger own parameters could not be run to completion within the memory and time of the sandbox, DESIGN 11.7).' if pid in MULTI else ' Thorough tier: larger bounds (DESIGN 11.7).'),
             'technique': c['technique'],
         })
     m = {
